@@ -279,8 +279,7 @@ class AppCfgMgr:
 
                 cached.pop(appname, None)
 
-            elif os.path.exists(os.path.join(self.tm_env.cleanup_dir,
-                                             appname)):
+            elif self._in_cleanup(appname, container):
                 # Already in the process of being cleaned up
                 _LOGGER.info('Ignoring %s as it is in cleanup', appname)
                 cached.pop(appname, None)
@@ -407,6 +406,17 @@ class AppCfgMgr:
                 pass
             else:
                 raise
+
+    def _in_cleanup(self, instance_name, container_name):
+        """Check if a container was already handed to the cleanup service.
+
+        The cleanup link is named after the container by `_terminate` and
+        after the instance by `_synchronize` and by the container monitor.
+        """
+        return any(
+            os.path.exists(os.path.join(self.tm_env.cleanup_dir, name))
+            for name in (instance_name, container_name)
+        )
 
     def _refresh_supervisor(self):
         """Notify the supervisor of new instances to run."""
